@@ -90,7 +90,10 @@ def check_inprocess(c, rec):
                                                      f"{[x[:8] for x in step_digests]}; program={c['prog']}")
         if first[0] != step_digests[0]:
             raise Violation("repetition_dependence", "fixed-data result differs between runs")
-    draws = any(s["k"] not in ("fixed",) and not (s["k"] == "init" and s.get("fn") == "constant_") and s["k"] != "layer"
+    # only steps that draw continuous values carry enough entropy for "different seeds -> different digests"
+    # (a few small integers, a short permutation or a small dropout mask coincide with noticeable probability)
+    draws = any(s["k"] in ("rand", "randn", "normal", "train", "apply_init")
+                or (s["k"] == "init" and s.get("fn") != "constant_")
                 or (s["k"] == "layer" and not s["kind"].startswith("bn")) for s in c["prog"])
     if draws and c["seed"] != c["seed2"]:
         d4, _ = run_program(c["prog"], c["seed2"])
